@@ -38,6 +38,9 @@ def worker(args):
         for _ in range(count):
             alpha = rnd.choice(["ab", "ab", "abc"])
             p1 = upword.rand_patterns(rnd, alpha, 3, 3)
+            if rnd.random() < 0.2:  # every continuation of one letter forbidden: a rule with several children that sit in other equivalence classes
+                x = rnd.choice(alpha)
+                p1 = sorted(x + y for y in alpha)
             kind = rnd.random()
             if kind < 0.45:  # image under a relabelling, possibly with a redundant pattern added (inferral applies to the start class)
                 perm = list(alpha)
